@@ -8,20 +8,38 @@
   a count larger than its own.  The theorems below are about `fetchCount`, i.e. about one step
   of that traversal.
 
-  NOT proved: the generic theorem `init_with_override` of DESIGN.md (for schemas A ≼ B, B's
-  traversal under A's count list consumes the list exactly, gives every struct reachable in A
-  its A count and never visits a field beyond it - hence B's column tree under A's descriptor
-  EQUALS A's column tree), and therefore none of `forward`, `downgrade` as statements about all
-  schema pairs.  The interoperability statement of C04 is DECIDED, pair by pair, by the
-  cross-package runs of h_gen: code generated for A and for B by stefc, data written by one and
-  read by the other in both directions, with the Lean decoder (given schema B and A's descriptor
-  in the stream, resp. schema A) as an independent oracle for every stream; `refuse` is run
-  against the real reader with genuine and crafted descriptors.
+  PROVED for all schema pairs A ≼ B (B = A plus fields appended to structs / oneofs, new
+  definitions only below appended fields), all fuels, all traversal positions (induction over the
+  mutual recursion `mkNode` / `mkFields`, Proofs/Override.lean):
+
+  * `init_with_override`: the column tree a B reader builds when it is initialised with A's own
+    descriptor (the list of counts A's traversal fetches) IS A's column tree - same columns, same
+    kept field counts, same optional counts, same recursion cuts, same number of columns - and
+    the descriptor is consumed exactly (`override = some []`, which is what `decodeStream`
+    demands).  `reader_init_forward` is the same at the fuel and stack `decodeStream` uses.
+  * `init_mono`: more generally, under ANY descriptor that a reader for A accepts, a reader for
+    B builds the same tree and leaves the same rest of the descriptor.
+  * `own_descriptor_exact`: a reader accepts its own descriptor, consumes it exactly and builds
+    the tree it builds without descriptor.
+  * `accepted_counts_within_own`: a descriptor is accepted only if every count it supplies is
+    within the reader's own count of that struct (so a descriptor with more fields for ANY
+    visited struct is refused - `refuse` at every position, not only for one step);
+    `refuse_root_partial` spells the error out for the root.
+
+  NOT proved (stated in full as `ForwardStatement`, decided by the h_gen runs): the RECORD level -
+  that `decodeStream B` on a stream written in schema A returns A's records extended with
+  defaults (`Ext`).  What is missing is a simulation of `decodeNode` for two schemas whose
+  states differ in the B-only fields (the trees are equal by `init_with_override`, the bit
+  consumption is therefore the same, but the states `initSt σ` / `altInit σ` and the struct
+  dictionary contents differ by the appended default fields).  `downgrade` concerns the Go
+  WRITER (keepFieldMask), which has no Lean model: run-only.  The interoperability statement of
+  C04 stays DECIDED pair by pair by the cross-package runs of h_gen (code generated for A and B,
+  both directions, Lean decoder as oracle on every stream, genuine and crafted descriptors).
 -/
-import Stef.Spec
+import Stef.Proofs.Override
 
 namespace Stef.Props.C04
-open Stef Stef.Spec
+open Stef Stef.Spec Stef.Proofs.Override
 
 /-- (a) first encounter, descriptor present, next count `c ≤ own`: the count is `c`, it is
     consumed from the descriptor and remembered under the struct's name. -/
@@ -79,5 +97,97 @@ theorem fetch_own (b : Build) (name : String) (own : Nat)
   simp [hnew, hov]
 
 example : fetchCount {} "Point" 3 = .ok (3, { known := [("Point", 3)] }) := fetch_own {} "Point" 3 rfl rfl
+
+/-! ## Append-only evolution: the traversal of the whole schema -/
+
+theorem schemaLe_refl (A : Schema) : SchemaLe A A := by
+  intro n dA h
+  refine ⟨dA, h, ?_⟩
+  cases dA with
+  | struct d fs => exact ⟨rfl, List.prefix_refl fs⟩
+  | oneof fs => exact List.prefix_refl fs
+  | mmap k v => exact ⟨rfl, rfl⟩
+
+/-- **init_mono**: under any descriptor `l` that a reader for A accepts at a position, a reader
+    for every B with A ≼ B builds the same column tree and ends in the same build state (same
+    rest of the descriptor, same remembered counts, same number of columns). -/
+theorem init_mono (A B : Schema) (hAB : SchemaLe A B) (fuel : Nat) (stack : List String) (ty : Ty)
+    (l : List Nat) (c : Nat) (r : Node × Build)
+    (hA : mkNode A fuel stack ty { nextCol := c, override := some l } = .ok r) :
+    mkNode B fuel stack ty { nextCol := c, override := some l } = .ok r :=
+  ((mono_all A B hAB fuel).1 stack ty _ r ⟨l, rfl⟩ (by intro p hp; cases hp) hA).1
+
+/-- **own_descriptor_exact**: what a reader builds without descriptor it also builds from its own
+    descriptor, consuming it exactly (and leaving any further counts `rest` untouched). -/
+theorem own_descriptor_exact (A : Schema) (fuel : Nat) (ty : Ty) (node : Node) (b : Build) (rest : List Nat)
+    (h : mkNode A fuel [] ty {} = .ok (node, b)) :
+    mkNode A fuel [] ty { override := some (wireOf b ++ rest) } = .ok (node, { b with override := some rest }) := by
+  obtain ⟨new, hk, _, hrun⟩ := (own_all A fuel).1 [] ty {} (node, b) rfl h
+  have hnew : new = b.known := by simpa using hk.symm
+  subst hnew
+  exact hrun rest
+
+/-- **init_with_override**: for A ≼ B, a reader for B initialised with A's descriptor builds
+    exactly A's column tree (`nodeA`: columns, kept counts, optional counts, recursion cuts) with
+    A's number of columns and remembered counts (`bA`), and consumes the descriptor exactly. -/
+theorem init_with_override (A B : Schema) (hAB : SchemaLe A B) (fuel : Nat) (root : String)
+    (nodeA : Node) (bA : Build) (hA : mkNode A fuel [] (.ref root) {} = .ok (nodeA, bA)) :
+    mkNode B fuel [] (.ref root) { override := some (wireOf bA) } =
+      .ok (nodeA, { bA with override := some [] }) := by
+  have h1 := own_descriptor_exact A fuel (.ref root) nodeA bA [] hA
+  simp only [List.append_nil] at h1
+  exact init_mono A B hAB fuel [] (.ref root) (wireOf bA) 0 _ h1
+
+/-- the same at the fuel `decodeStream` uses: the `mkNode` call of `decodeStream B` on a stream
+    carrying A's descriptor succeeds with A's tree and an empty rest, so the decoder goes on to
+    the frames with A's column layout (no "too-many-fields", no "schema-override-not-consumed"). -/
+theorem reader_init_forward (A B : Schema) (hAB : SchemaLe A B) (root : String) (nodeA : Node) (bA : Build)
+    (hA : mkNode A 200 [] (.ref root) { override := none } = .ok (nodeA, bA)) :
+    mkNode B 200 [] (.ref root) { override := some (wireOf bA) } = .ok (nodeA, { bA with override := some [] }) :=
+  init_with_override A B hAB 200 root nodeA bA hA
+
+/-- **accepted_counts_within_own**: a descriptor is accepted only if every count it supplied is
+    within the reader's own field count of that struct / oneof: a descriptor that gives ANY
+    visited struct more fields than the reader knows is refused (contrapositive). -/
+theorem accepted_counts_within_own (A : Schema) (fuel : Nat) (ty : Ty) (l : List Nat) (node : Node) (b : Build)
+    (h : mkNode A fuel [] ty { override := some l } = .ok (node, b)) :
+    ∀ p ∈ b.known, ∀ dA c, A.find p.1 = some dA → ownCount dA = some c → p.2 ≤ c :=
+  ((mono_all A A (schemaLe_refl A) fuel).1 [] ty _ (node, b) ⟨l, rfl⟩ (by intro p hp; cases hp) h).2.2
+
+/-- the refusal spelled out for the root struct (partial: first position only; every position is
+    covered by `accepted_counts_within_own`). -/
+theorem refuse_root_partial (A : Schema) (fuel : Nat) (root : String) (d : Option String) (fs : List Field)
+    (c : Nat) (rest : List Nat) (hf : A.find root = some (.struct d fs)) (hc : fs.length < c) :
+    mkNode A (fuel + 1) [] (.ref root) { override := some (c :: rest) } = .error "too-many-fields" := by
+  rw [mkNode]
+  simp [hf, fetchCount, hc, bind, Except.bind]
+
+/-! ### The record-level statement (NOT proved) -/
+
+/-- the full forward statement at the level of the specification decoder: a stream that decodes
+    under schema A, and carries A's descriptor, decodes under every B with A ≼ B to the same number
+    of records with the same root masks, each an extension of A's record by B-only fields.
+    This is a DEFINITION (the statement), not a theorem: it is not proved, see the header. -/
+def ForwardStatement : Prop :=
+  ∀ (A B : Schema), SchemaLe A B → ∀ (root : String) (stream : Bytes) (nodeA : Node) (bA : Build),
+    mkNode A 200 [] (.ref root) {} = .ok (nodeA, bA) →
+    (decodeStream A root stream).error = none →
+    (decodeStream A root stream).header.wireCounts = some (wireOf bA) →
+    (decodeStream B root stream).error = none ∧
+    (decodeStream A root stream).records.map (·.1) = (decodeStream B root stream).records.map (·.1) ∧
+    ExtL ((decodeStream A root stream).records.map (·.2)) ((decodeStream B root stream).records.map (·.2))
+
+/-! ### Non-vacuity: a concrete pair A ≼ B whose descriptor lists differ in length -/
+
+-- A's own descriptor is [3, 1, 2]; B's own is [4, 2, 1, 3]. A B reader given [3, 1, 2] builds
+-- A's tree (the new struct N is never visited) and consumes the three counts.
+example : ∃ nodeA bA, mkNode exA 200 [] (.ref "R") {} = .ok (nodeA, bA) ∧ wireOf bA = [3, 1, 2] ∧
+    mkNode exB 200 [] (.ref "R") { override := some [3, 1, 2] } = .ok (nodeA, { bA with override := some [] }) := by
+  refine ⟨_, _, rfl, rfl, ?_⟩
+  exact init_with_override exA exB exA_le_exB 200 "R" _ _ rfl
+
+-- ... and an A reader given B's own descriptor refuses it at the root.
+example : mkNode exA 200 [] (.ref "R") { override := some [4, 2, 1, 3] } = .error "too-many-fields" :=
+  refuse_root_partial exA 199 "R" none _ 4 [2, 1, 3] rfl (by decide)
 
 end Stef.Props.C04
